@@ -6,7 +6,7 @@ from http://www.mac-guyver.com/switham/2020/03/HyperbolicPairing/hyperbolic_pair
 """
 
 from functools import cache
-from math import floor, sqrt, log
+from math import floor, isqrt, log
 
 import numpy as np
 import scipy.optimize
@@ -21,7 +21,7 @@ def a_n(n):
 
     :return: the sequence of the sum of the divisor of k for k in [1,n]
     """
-    sqrt_x = floor(sqrt(n))
+    sqrt_x = isqrt(n)  # exact integer square root (floor(sqrt(n)) is off by one for n = k*k - 1 beyond 2**52)
     res = 2 * sum(n // k for k in range(1, sqrt_x + 1)) - sqrt_x**2
 
     return res
